@@ -144,6 +144,8 @@ def units(tier):
     us = [
         Unit("exhaustive-binary", check, count=lambda t: _space(t).total, cases=_exh_cases,
              shards=(16, 64), space=_space(tier).describe() + " as 0/1 float64"),
+        Unit("exhaustive-lengths", check, count=c03._w_total, cases=c03._w_cases, shards=(16, 64),
+             space="; ".join(sp.describe() for sp in c03._wspace(tier)) + " used as length matrices (every tie pattern on these sizes)"),
         Unit("random-binary", check, strategy=lambda: cases(12, ["bin"]), examples=(400, 6000), shards=(4, 16)),
         Unit("random-lengths", check, strategy=lambda: cases(9, ["len"]), examples=(1000, 16000), shards=(8, 16)),
         Unit("random-lengths-large", check, strategy=lambda: cases(14, ["len"]), examples=(200, 4000), shards=(4, 16)),
